@@ -380,3 +380,29 @@ Lemma scope_tight :
   DateTime (DateString (Civil 2024 1 1 0 0 0 (-86400))) <> DOk (Civil 2024 1 1 0 0 0 (-86400)) /\
   DateTime (DateString (Civil 2024 1 1 0 0 0 30)) <> DOk (Civil 2024 1 1 0 0 0 30).
 Proof. vm_compute. repeat split; discriminate. Qed.
+
+(* ---------------- (instant, location) form ---------------- *)
+Section LocatedProofs.
+  Variable Loc : Type.
+  Variable zone_offset : Loc -> Z -> Z.
+  Variable civil_fields : Z -> Z -> civil.
+  (* package time, trusted: the civil reading carries the offset it was taken at, is a valid
+     calendar date/time, and denotes the instant it was taken from *)
+  Hypothesis civil_fields_off : forall u off, coff (civil_fields u off) = off.
+  Hypothesis civil_fields_valid : forall u off, valid_civil (civil_fields u off).
+  Hypothesis civil_fields_instant : forall u off, unix_of (civil_fields u off) = u.
+
+  Lemma date_roundtrip_located l u :
+    0 <= cy (civil_at Loc zone_offset civil_fields l u) <= 9999 ->
+    Z.rem (zone_offset l u) 60 = 0 -> -86400 < zone_offset l u < 86400 ->
+    exists c, DateTime (DateStringAt Loc zone_offset civil_fields l u) = DOk c /\
+              unix_of c = u /\ coff c = zone_offset l u.
+  Proof.
+    intros Hy Hrem Hoff. exists (civil_at Loc zone_offset civil_fields l u).
+    unfold DateStringAt. split; [|split].
+    - apply date_roundtrip. unfold in_scope, civil_at in *. rewrite civil_fields_off.
+      split; [assumption|]. split; [apply civil_fields_valid|]. split; assumption.
+    - apply civil_fields_instant.
+    - apply civil_fields_off.
+  Qed.
+End LocatedProofs.
